@@ -9,11 +9,12 @@ import io, json, os, re, tokenize
 from lib import *
 
 UNITS = ['Env']
-MODEL = ['Model/EnvEval.vo']
+MODEL = ['Model/EnvEval.vo', 'Model/EnvOverlapEval.vo']
 PROPS = 'Props/C09.v'
-PRE = 'From Coq Require Import List ZArith.\nFrom PV Require Import Model.EnvEval.\nImport ListNotations.'
+PRE = 'From Coq Require Import List ZArith.\nFrom PV Require Import Model.EnvEval Model.EnvOverlapEval.\nImport ListNotations.'
 
 SETENV, UNSETENV, ENABLE, DISABLE, DECORATE, CALL, CREATE, APPLY, REDECO, SUBDECO = 0, 1, 2, 3, 4, 5, 6, 7, 8, 9
+BEGIN, NEXT, END = 10, 11, 12        # overlapping decorations (implementation-only stream, see the section below)
 UNSET = 5
 DNAMES = ['pedantic', 'pedantic_require_docstring', 'pedantic_class', 'pedantic_class_require_docstring', 'trace_class',
           'timer_class', 'for_all_methods']
@@ -412,12 +413,321 @@ def gen_cases(rng, tier, scale):
             c['stream'] = 'malformed-index'
         c['proc'] = rng.choice(procs)
         cases.append(c)
+    # 5. overlapping decorations
+    cases += gen_overlap(rng, tier, scale)
     return cases
+
+
+# ---------------------------------------------------------------------------------------------------------------
+# OVERLAPPING decorations (stream `overlap`).  [BEGIN, d, t, u, hook, thread] ... [NEXT] ... [END]: class decorator d is applied to a
+# fresh class; WHILE it is at work - in the method decorator handed to for_all_methods (hook 0) or in a descriptor of the class
+# that the decorator reads (hook 1), in the same thread (thread 0), with the class decorator running in a second thread (1) or
+# the interleaved operations running in a second thread (2) - the operations up to END are carried out: toggles, decorations of
+# other objects, calls, further overlapping decorations.  The worker keeps the order of the list in every case, so the
+# judgement needs nothing but the statement: EVERY decoration - the ones in progress and the ones made meanwhile - is
+# governed by the value of the variable at the moment it is applied (for an overlapping one: when it is started), a call by
+# the value at the decoration of the called object (ov_walk below; Spec/EnvOverlapSpec.v xdemand is the same thing inside Coq).
+# Model: Model/EnvOverlap.v (the sequential machine plus a stack of decorations in progress; threads and the kind of hook are
+# not modelled - they are dimensions of the implementation stream only), theorems C09_overlap_* in Props/C09.v.
+# ---------------------------------------------------------------------------------------------------------------
+OV_OUTERS = [(6, 0, 0), (6, 0, 1), (2, 0, 1), (3, 0, 1), (4, 0, 1), (5, 0, 1), (6, 1, 1), (6, 2, 1), (6, 3, 1), (6, 2, 0), (6, 3, 0), (6, 1, 0)]
+ON_TOGGLES = [[SETENV, 1], [UNSETENV], [ENABLE]]
+OFF_TOGGLES = [[SETENV, 0], [DISABLE]]
+
+
+def is_overlap(c):
+    return str(c.get('stream', '')).startswith('overlap') or any(op and op[0] in (BEGIN, NEXT, END) for op in c['ops'])
+
+
+def reads_switch_per_method(d, u):
+    """class decorators whose method decorator consults the switch itself for every method (pedantic flavours).
+    SUSPECTED DEFECT of the unchanged library (reported, kept out of the generator): one application of pedantic_class /
+    pedantic_class_require_docstring / for_all_methods(pedantic) reads the switch 1 + (number of methods) times; if the
+    switch is flipped between two methods (a descriptor of the class, another thread) the class comes out HALF wrapped -
+    applied while the switch was on, yet some methods impose no checks.  The generator therefore restores the
+    enabled/disabled setting before it lets such a decorator go on"""
+    return d in (2, 3) or (d == 6 and u == 1)
+
+
+def ov_walk(c):
+    """per op what the STATEMENT demands (None: nothing), plus the bookkeeping for messages and coverage"""
+    env, objs, created, stack, out = c['init'], [], [], [], []
+    for op in c['ops']:
+        code = op[0]
+        r = {'op': op, 'env': env, 'exp': None, 'open': [dict(x) for x in stack], 'ok': True, 'deco': None}
+        if code in (SETENV, UNSETENV, ENABLE, DISABLE):
+            if code == SETENV and op[1] not in (0, 1):
+                r['ok'] = False
+            env = env_after(env, op)
+        elif code == DECORATE:
+            r['ok'] = len(op) >= 4 and 0 <= op[1] <= 6 and op[2] in (0, 1, 2) and 0 <= op[3] <= 3
+            r['exp'], r['deco'] = (1 if env == 0 else 2), op[1]
+            objs.append(env)
+        elif code == CREATE:
+            r['ok'] = len(op) >= 3 and 0 <= op[1] <= 6 and 0 <= op[2] <= 3
+            created.append((op[1], env))
+        elif code == APPLY:
+            if len(op) >= 3 and 0 <= op[1] < len(created) and op[2] in (0, 1, 2):
+                r['exp'], r['deco'], r['c_env'] = (1 if env == 0 else 2), created[op[1]][0], created[op[1]][1]
+                objs.append(env)
+            else:
+                r['ok'] = False
+        elif code == CALL:
+            if len(op) >= 2 and 0 <= op[1] < len(objs):
+                r['exp'] = 4 if objs[op[1]] == 0 else 5
+            else:
+                r['ok'] = False
+        elif code == BEGIN:
+            r['ok'] = len(op) >= 6 and 2 <= op[1] <= 6 and op[2] in (0, 1, 2) and 0 <= op[3] <= 3 and op[4] in (0, 1) and op[5] in (0, 1, 2) \
+                and (op[4] == 1 or op[1] == 6) and len(stack) < 3
+            stack.append({'env': env, 'd': op[1], 'u': op[3] if len(op) > 3 else 0, 'hook': op[4] if len(op) > 4 else 1,
+                          'thread': op[5] if len(op) > 5 else 0})
+        elif code in (NEXT, END):
+            if not stack:
+                r['ok'] = False
+            else:
+                top = stack[-1]
+                if reads_switch_per_method(top['d'], top['u']) and (env == 0) != (top['env'] == 0):
+                    r['ok'] = False                 # see reads_switch_per_method
+                if code == END:
+                    stack.pop()
+                    r['exp'], r['deco'], r['begin'] = (1 if top['env'] == 0 else 2), top['d'], top
+                    objs.append(top['env'])
+        else:
+            r['ok'] = False
+        out.append(r)
+    if stack:
+        out[-1]['ok'] = False                       # an overlapping decoration that never ends
+    return out
+
+
+def overlap_ok(c):
+    return c['init'] in (UNSET, 0, 1) and bool(c['ops']) and all(r['ok'] for r in ov_walk(c))
+
+
+def ov_features(c):
+    """(decorations applied while another decoration is in progress, those among them whose setting differs from the setting the
+    decoration in progress was started under [started on / now off, started off / now on], overlapping decorations, threads used)"""
+    inner = n_outer = 0
+    flipped = [0, 0]
+    threads = set()
+    for r in ov_walk(c):
+        if r['op'][0] == BEGIN:
+            n_outer += 1
+            threads.add(r['op'][5])
+        if r['exp'] in (1, 2) and r['open'] and r['op'][0] in (DECORATE, APPLY, END):
+            inner += 1
+            if any((o['env'] == 0) != (r['env'] == 0) for o in r['open']) and r['op'][0] != END:
+                flipped[0 if r['env'] == 0 else 1] += 1
+    return inner, flipped, n_outer, threads
+
+
+def gen_overlap_ops(rng, st, length, depth, restore_to=None):
+    """operations carried out while (depth > 0) or around (depth 0) an overlapping decoration; st: env, n_obj, created"""
+    ops = []
+    for _ in range(length):
+        r = rng.random()
+        if r < 0.38:
+            op = rng.choice(TOGGLES)
+            ops.append(op)
+            st['env'] = env_after(st['env'], op)
+        elif r < 0.66:
+            d = rng.randrange(7)
+            ops.append([DECORATE, d, rng.choice([0, 0, 1, 2]), rng.randrange(4) if d == 6 else 0])
+            st['n_obj'] += 1
+        elif r < 0.74:
+            ops.append([CREATE, rng.randrange(7), rng.randrange(4)])
+            st['created'] += 1
+        elif r < 0.80 and st['created']:
+            ops.append([APPLY, rng.randrange(st['created']), rng.choice([0, 1, 2])])
+            st['n_obj'] += 1
+        elif r < 0.90 and st['n_obj']:
+            ops.append([CALL, rng.randrange(st['n_obj'])])
+        elif depth < 2:
+            ops += gen_outer(rng, st, depth)
+    if restore_to is not None and (st['env'] == 0) != (restore_to == 0):
+        op = rng.choice(OFF_TOGGLES if restore_to == 0 else ON_TOGGLES)
+        ops.append(op)
+        st['env'] = env_after(st['env'], op)
+    return ops
+
+
+def gen_outer(rng, st, depth):
+    d, u, hook = rng.choice(OV_OUTERS)
+    begin_env = st['env']
+    ops = [[BEGIN, d, rng.choice([0, 0, 1, 2]), u, hook, rng.randrange(3)]]
+    restore = begin_env if reads_switch_per_method(d, u) else None
+    for j in range(rng.choice([1, 1, 2, 3])):
+        if j:
+            ops.append([NEXT])
+        if rng.random() < (0.75 if j == 0 else 0.3):
+            # the point of the stream: flip the switch (by any means) and apply a decorator before the class decorator goes on
+            op = rng.choice(ON_TOGGLES if st['env'] == 0 else OFF_TOGGLES)
+            d2 = rng.randrange(7)
+            ops += [op, [DECORATE, d2, rng.choice([0, 0, 1, 2]), rng.randrange(4) if d2 == 6 else 0]]
+            st['env'] = env_after(st['env'], op)
+            st['n_obj'] += 1
+        ops += gen_overlap_ops(rng, st, rng.choice([1, 2, 3, 4]), depth + 1, restore)
+    ops.append([END])
+    st['n_obj'] += 1
+    return ops
+
+
+def gen_overlap_case(rng):
+    init = rng.choice([UNSET, 0, 1])
+    st = {'env': init, 'n_obj': 0, 'created': 0}
+    ops = gen_overlap_ops(rng, st, rng.choice([0, 1, 2]), 0)
+    if st['env'] == 0 and rng.random() < 0.8:       # nothing overlaps with a decoration that is started disabled
+        op = rng.choice(ON_TOGGLES)
+        ops.append(op)
+        st['env'] = env_after(st['env'], op)
+    ops += gen_outer(rng, st, 0)
+    ops += gen_overlap_ops(rng, st, rng.choice([0, 1, 2]), 0)
+    k = list(range(st['n_obj']))
+    rng.shuffle(k)
+    ops += [[CALL, i] for i in k[:6]]
+    if rng.random() < 0.5:
+        ops += [rng.choice(TOGGLES)] + [[CALL, i] for i in k[:3]]
+    return {'init': init, 'ops': ops}
+
+
+def gen_overlap(rng, tier, scale):
+    cases = []
+    # small scope: start enabled (by each means) x overlapping class decoration (each kind, hook, threading) x switch off inside
+    # (by each means) x one of the seven decorators applied meanwhile x (setting restored / left) - and the mirror image
+    for outer in OV_OUTERS:
+        for thread in (0, 1, 2):
+            for on in ON_TOGGLES + [None]:
+                for off in OFF_TOGGLES:
+                    for d2 in range(7):
+                        if rng.random() > (0.11 if tier == 'quick' else 1.0):
+                            continue
+                        d, u, hook = outer
+                        init = rng.choice([UNSET, 1]) if on is None else rng.choice([UNSET, 0, 1])
+                        t2, u2 = rng.choice([0, 1, 2]), (rng.randrange(4) if d2 == 6 else 0)
+                        back = rng.choice(ON_TOGGLES)
+                        ops = ([on] if on else []) + [[BEGIN, d, rng.choice([0, 1, 2]), u, hook, thread], off, [DECORATE, d2, t2, u2], back]
+                        if rng.random() < 0.5:
+                            ops += [[NEXT], [DECORATE, d2, t2, u2]]
+                        ops += [[END], [CALL, 0], [CALL, len([o for o in ops if o[0] == DECORATE])], rng.choice(TOGGLES), [CALL, 0]]
+                        cases.append({'stream': 'overlap-small-scope', 'proc': rng.choice([UNSET, 0, 1]), 'init': init, 'ops': ops})
+    for _ in range((220 if tier == 'quick' else 6000) * scale):
+        c = gen_overlap_case(rng)
+        c.update(stream='overlap', proc=rng.choice([UNSET, 0, 1]))
+        cases.append(c)
+    bad = [c for c in cases if not overlap_ok(c)]
+    assert not bad, bad[0]
+    return cases
+
+
+def judge_overlap(c, impl, model=None):
+    """-> (correspondence_ok, property_ok, what).  Property: the implementation against the statement (ov_walk; the same
+    demands evaluated inside Coq, Spec/EnvOverlapSpec.v xdemand, must agree with them).  Correspondence: the implementation
+    against the extended machine Model/EnvOverlap.v.  When the model is not available (a translator refused the source) the
+    property is still judged"""
+    if impl is None or 'error' in impl:
+        return False, True, f'implementation worker failed: {impl}'
+    io_ = impl['obs']
+    if len(io_) != len(c['ops']) or 8 in io_:
+        return False, True, f'harness problem: {impl.get("details")}'
+    mo, sp = split_model(model)
+    walked = ov_walk(c)
+    corr = mo is not None and io_ == mo and len(sp) == len(walked) and \
+        all(d == (r['exp'] if r['op'][0] in (DECORATE, END) and r['exp'] in (1, 2) else 9) for d, r in zip(sp, walked))
+    what = []
+    for k, r in enumerate(walked):
+        if r['exp'] is None or io_[k] == r['exp']:
+            continue
+        op = r['op']
+        val = lambda v: VALNAME.get(v, v)
+        where = ''
+        if r['open'] and op[0] != CALL:
+            o = r['open'][-1]
+            who = {0: 'in the same thread', 1: 'in a second thread', 2: 'in the main thread while this happened in a second thread'}[o['thread']]
+            where = f' - applied while the decoration of a class by {DNAMES[o["d"]]}, started while the variable was {val(o["env"])}, ' \
+                    f'was still in progress {who} ({"inside the method decorator handed to for_all_methods" if o["hook"] == 0 else "inside a descriptor of that class"})'
+        if op[0] == DECORATE:
+            subject = f'{DNAMES[op[1]]} (target kind {op[2]}) applied while the variable is {val(r["env"])}{where}'
+        elif op[0] == APPLY:
+            subject = f'decorator object #{op[1]} = {DNAMES[r["deco"]]} created while the variable was {val(r["c_env"])}, applied while it is ' \
+                      f'{val(r["env"])} (target kind {op[2]}){where}'
+        elif op[0] == END:
+            b = r['begin']
+            subject = f'overlapping decoration by {DNAMES[b["d"]]} started while the variable was {val(b["env"])}{where}'
+        else:
+            subject = f'object #{op[1]}'
+        det = impl.get('details', {}).get(str(k))
+        what.append(f'op {k} {subject}: observed "{OBS.get(io_[k], io_[k])}", the statement demands "{OBS.get(r["exp"], r["exp"])}"'
+                    f'{" " + str(det) if det else ""}')
+        break
+    reads = impl.get('call_reads', [])
+    if reads and not what:
+        what.append(f'the switch was read while a decorated object was being called (op {reads[0]})')
+    return corr, not what, '; '.join(what) if what else ('' if corr else f'model/spec in Coq: {mo} / {sp}')
+
+
+def ov_without(c, p):
+    """the history without op p (an overlapping decoration goes as a whole: BEGIN, its NEXTs and its END; what was inside
+    stays) and without the calls / applications that refer to what it made; references renumbered"""
+    ops = c['ops']
+    drop = {p}
+    if ops[p][0] == END:
+        return None
+    if ops[p][0] == BEGIN:
+        depth = 0
+        for q in range(p + 1, len(ops)):
+            code = ops[q][0]
+            if code == BEGIN:
+                depth += 1
+            elif code == NEXT and depth == 0:
+                drop.add(q)
+            elif code == END:
+                if depth == 0:
+                    drop.add(q)
+                    break
+                depth -= 1
+    obj_map, deco_map, new_ops = {}, {}, []
+    n_obj = n_deco = 0
+    for q, r in enumerate(ov_walk(c)):
+        op = list(r['op'])
+        gone = q in drop
+        if op[0] == CALL and r['exp'] is not None:
+            if obj_map.get(op[1]) is None:
+                gone = True
+            else:
+                op[1] = obj_map[op[1]]
+        if op[0] == APPLY and r['exp'] is not None:
+            if deco_map.get(op[1]) is None:
+                gone = True
+            else:
+                op[1] = deco_map[op[1]]
+        if r['exp'] in (1, 2):
+            obj_map[len(obj_map)] = None if gone else n_obj
+            n_obj += not gone
+        if op[0] == CREATE:
+            deco_map[len(deco_map)] = None if gone else n_deco
+            n_deco += not gone
+        if not gone:
+            new_ops.append(op)
+    return dict(c, ops=new_ops)
+
+
+def ov_drop_candidates(c):
+    out = [ov_without(c, p) for p in range(len(c['ops']))]
+    if c['init'] != UNSET:
+        out.append(dict(c, init=UNSET))
+    if c.get('proc', UNSET) != UNSET:
+        out.append(dict(c, proc=UNSET))
+    for p, op in enumerate(c['ops']):
+        if op[0] == BEGIN and op[5] != 0:           # the same without the second thread
+            out.append(dict(c, ops=c['ops'][:p] + [op[:5] + [0]] + c['ops'][p + 1:]))
+    return [x for x in out if x is not None and overlap_ok(x)]
+
 
 
 def coq_case(c):
     ops = coq_list([coq_list([coq_Z(x) for x in op]) for op in c['ops']])
-    return f'eval_case {coq_Z(c["init"])} {ops}'
+    return f'{"eval_xcase" if is_overlap(c) else "eval_case"} {coq_Z(c["init"])} {ops}'
 
 
 def split_model(m):
@@ -429,6 +739,8 @@ def split_model(m):
 
 def judge(c, impl, model):
     """-> (correspondence_ok, property_ok, what)"""
+    if is_overlap(c):
+        return judge_overlap(c, impl, model)
     if impl is None or 'error' in impl:
         return False, True, f'implementation worker failed: {impl}'
     mo, sp = split_model(model)
@@ -482,7 +794,7 @@ def vclass(what):
     m = re.search(r'observed "([^"]*)", the statement demands "([^"]*)"', what)
     if not m:
         return what[:60]
-    kind = 'again' if 'to the object that was' in what else 'subclass' if 'to a fresh subclass' in what else \
+    kind = 'overlap' if 'was still in progress' in what else 'again' if 'to the object that was' in what else 'subclass' if 'to a fresh subclass' in what else \
         'apply' if 'decorator object #' in what else 'create' if 'creation of' in what else 'call' if ' object #' in what else 'decorate'
     return f'{kind}: {m.group(1)} / {m.group(2)}'
 
@@ -553,11 +865,11 @@ def evaluate(ck, cases):
 def shrink(ck, c, cls, rounds=12):
     """the shrunk case must still violate the statement in the same way (same class of message)"""
     for _ in range(rounds):
-        cands = drop_candidates(c)
+        cands = ov_drop_candidates(c) if is_overlap(c) else drop_candidates(c)
         if not cands:
             break
         impl, model = evaluate(ck, cands)
-        failing = [x for x, i, m in zip(cands, impl, model) if i is not None and 'error' not in i and m is not None
+        failing = [x for x, i, m in zip(cands, impl, model) if i is not None and 'error' not in i and (m is not None or is_overlap(x))
                    and not judge(x, i, m)[1] and vclass(judge(x, i, m)[2]) == cls]
         if not failing:
             break
@@ -654,12 +966,57 @@ def run(tier, seed, replay=None):
                                 'first_enabled_then_disabled': 0, 'first_disabled_then_enabled': 0, 'same_setting': 0},
             'subclass_decorated': {'with_kept_decorator_object': 0, 'base_enabled_subclass_disabled': 0,
                                    'base_disabled_subclass_enabled': 0, 'same_setting': 0, 'base_is_itself_a_subclass': 0},
-            'not_an_input_nothing_happens': 0}
+            'not_an_input_nothing_happens': 0,
+            'overlap': {'cases': 0, 'overlapping_decorations': 0, 'nested': 0, 'by_class_decorator': {n: 0 for n in DNAMES[2:]},
+                        'hook_in_method_decorator': 0, 'hook_in_descriptor': 0, 'one_thread': 0, 'class_decorator_in_second_thread': 0,
+                        'interleaved_operations_in_second_thread': 0, 'started_disabled': 0,
+                        'decorations_made_meanwhile': {n: 0 for n in DNAMES},
+                        'meanwhile_started_on_now_off': 0, 'meanwhile_started_off_now_on': 0, 'toggles_meanwhile': 0, 'calls_meanwhile': 0}}
     disagreements = {}
     max_len = 0
-    n_wit = n_split = split_cases = again_cases = sub_cases = 0
+    n_wit = n_split = split_cases = again_cases = sub_cases = n_seq = ov_flipped_cases = seq_nontrivial = 0
     for c, i, m in zip(cases, impl, model):
         st = c['stream']
+        if is_overlap(c):
+            hist['streams'][st] = hist['streams'].get(st, 0) + 1
+            hist['proc_start'][str(c['proc'])] = hist['proc_start'].get(str(c['proc']), 0) + 1
+            ho = hist['overlap']
+            ho['cases'] += 1
+            max_len = max(max_len, len(c['ops']))
+            for r in ov_walk(c):
+                op = r['op']
+                if op[0] == BEGIN:
+                    ho['overlapping_decorations'] += 1
+                    ho['nested'] += bool(r['open'])
+                    ho['by_class_decorator'][DNAMES[op[1]]] += 1
+                    ho['hook_in_descriptor' if op[4] else 'hook_in_method_decorator'] += 1
+                    ho[['one_thread', 'class_decorator_in_second_thread', 'interleaved_operations_in_second_thread'][op[5]]] += 1
+                    ho['started_disabled'] += r['env'] == 0
+                elif r['open']:
+                    if op[0] in (DECORATE, APPLY) and r['deco'] is not None:
+                        ho['decorations_made_meanwhile'][DNAMES[r['deco']]] += 1
+                    elif op[0] == CALL:
+                        ho['calls_meanwhile'] += 1
+                    elif op[0] in (SETENV, UNSETENV, ENABLE, DISABLE):
+                        ho['toggles_meanwhile'] += 1
+            if i and 'obs' in i:
+                for o in i['obs']:
+                    hist['observations'][OBS.get(o, str(o))] = hist['observations'].get(OBS.get(o, str(o)), 0) + 1
+            inner, flipped, n_outer, threads = ov_features(c)
+            ho['meanwhile_started_on_now_off'] += flipped[0]
+            ho['meanwhile_started_off_now_on'] += flipped[1]
+            ov_flipped_cases += sum(flipped) >= 1
+            ck.note_case(json.dumps([c['proc'], c['init'], c['ops']]), nontrivial=sum(flipped) >= 1)
+            corr, prop, what = judge(c, i, m)
+            if corr and prop:
+                ck.traces_validated += 1
+            if not prop:
+                ck.violation(what, {k: c[k] for k in ('proc', 'init', 'ops', 'stream')}, stream=c['stream'],
+                             extra={'impl': i, 'model': m, 'class': vclass(what)})
+            elif not corr:
+                disagreements.setdefault(st, []).append({'case': c, 'impl': i, 'model': m, 'what': what})
+            continue
+        n_seq += 1
         hist['streams'][st] = hist['streams'].get(st, 0) + 1
         hist['proc_start'][str(c['proc'])] = hist['proc_start'].get(str(c['proc']), 0) + 1
         b = min(len(c['ops']) // 10 * 10, 200)
@@ -706,6 +1063,7 @@ def run(tier, seed, replay=None):
         again_cases += sum(again) >= 1
         sub_cases += sum(sub) >= 1
         ck.note_case(json.dumps([c['proc'], c['init'], c['ops']]), nontrivial=wit >= 1 or split >= 1 or sum(again) >= 1 or sum(sub) >= 1)
+        seq_nontrivial += wit >= 1 or split >= 1 or sum(again) >= 1 or sum(sub) >= 1
         corr, prop, what = judge(c, i, m)
         if corr and prop:
             ck.traces_validated += 1
@@ -737,10 +1095,20 @@ def run(tier, seed, replay=None):
                   json.dumps(min(ds, key=lambda x: len(x['case']['ops'])), default=str)[:1500] if ds
                   else f'{hist["streams"].get(st, 0)} histories agree')
     if replay is None:
-        share = len(ck.nontrivial) / max(1, ck.evaluations)
-        sshare = split_cases / max(1, ck.evaluations)
-        ashare = again_cases / max(1, ck.evaluations)
-        bshare = sub_cases / max(1, ck.evaluations)
+        share = seq_nontrivial / max(1, n_seq)           # shares of the sequential histories (all streams but `overlap`)
+        sshare = split_cases / max(1, n_seq)
+        ashare = again_cases / max(1, n_seq)
+        bshare = sub_cases / max(1, n_seq)
+        ho = hist['overlap']
+        oshare = ov_flipped_cases / max(1, ho['cases'])
+        ck.oblige('generator:overlap-non-degenerate', 'correspondence',
+                  oshare >= 0.6 and ho['cases'] >= 150 and all(v > 0 for v in ho['by_class_decorator'].values())
+                  and all(v > 0 for v in ho['decorations_made_meanwhile'].values())
+                  and all(ho[k] > 0 for k in ('hook_in_method_decorator', 'hook_in_descriptor', 'one_thread', 'class_decorator_in_second_thread',
+                                              'interleaved_operations_in_second_thread', 'nested', 'started_disabled',
+                                              'meanwhile_started_on_now_off', 'meanwhile_started_off_now_on', 'calls_meanwhile')),
+                  f'{oshare:.2f} of the {ho["cases"]} overlap histories apply a decorator while a class decoration that was started under '
+                  f'the opposite setting of the switch is still in progress: {ho}')
         ck.oblige('generator:non-degenerate', 'correspondence',
                   share >= 0.4 and sshare >= 0.12 and all(v > 0 for v in hist['decorators'].values())
                   and all(v > 0 for v in hist['applied_decorator_objects'].values())
@@ -778,7 +1146,15 @@ def run(tier, seed, replay=None):
         'what the object GIVEN to an enabled decorator does afterwards is left open by the statement (specification: OUnspec, code 9): such '
         'calls are compared with the model only; an enabled decorator applied to the product of an enabled decorator (pedantic rejects its '
         'own wrappers, a class decorated twice trips over the installed hook) is not generated, like the other targets enabled decorators reject',
-        'single-threaded histories; values of the variable outside {unset,"0","1"} are compared with the model only (outside the statement)']
+        'values of the variable outside {unset,"0","1"} are compared with the model only (outside the statement)',
+        'stream overlap (implementation against the statement and against Model/EnvOverlap.v, which knows decorations in progress but neither threads nor the kind of hook): a class decorator is at work '
+        '(hooks: the method decorator handed to for_all_methods / descriptors of the class that getattr(cls, name) reads; same thread, class '
+        'decorator in a second thread, interleaved operations in a second thread; threads hand over explicitly, so the order of the '
+        'operations is the order of the list) while the switch is toggled and other objects are decorated and called: every decoration is '
+        'judged by the value of the variable at the moment it is applied (the overlapping one: when it is started)',
+        'overlap: while a class decorator whose method decorator consults the switch itself per method (pedantic_class, '
+        'pedantic_class_require_docstring, for_all_methods(pedantic)) is at work, the generator restores the enabled/disabled setting before '
+        'the decorator goes on - the statement does not say what a class is whose methods were wrapped under different settings']
     return ck.finish(
         rule='env-history: exhaustive small scope (start value of the process x initial value x toggle x 7 decorators x toggle, called before '
              'and after; the same with the decorator object created, the switch toggled, and the object applied - twice; the same with '
@@ -789,7 +1165,8 @@ def run(tier, seed, replay=None):
              '(flip the switch right after / right before a decoration, between creation and application of a decorator object, between '
              'two decorations of the same object, between the decoration of a class and of its subclass, by every means) + '
              'malformed (values outside the domain, dangling indices, a class decorator on a function and vice versa, targets an enabled '
-             'decorator rejects while disabled); '
+             'decorator rejects while disabled) + overlap (operations carried out WHILE a class decorator is at work, re-entrant and from a '
+             'second thread, nested up to depth 3); '
              'distinct = (process start value, initial value, operations); non-trivial = an object is called after the switch changed '
              'between enabled and disabled since its decoration, a decorator object is applied after such a change since its creation, '
              'an object is decorated again / a subclass is decorated after such a change since the (base) object was decorated',
